@@ -386,6 +386,79 @@ theorem plan_change_falls_back (br : BR) (wl : Option Workload) (o : StepOut) (b
     simp [f1, f2, f3]
   · rfl
 
+/-! ### C07 — the executor settles (nothing oscillates) -/
+
+/-- the converse of `ensureReady_ok_iff`: on a workload that passes the readiness check the call says ok -/
+theorem ensureReady_of_ready (br : BR) (ns : Status) (wl : Option Workload) (h : batchReadyNow br wl = true) :
+    ensureReady (withFinalizer br) ns wl = .val .ok := by
+  unfold batchReadyNow at h
+  unfold ensureReady
+  cases wl with
+  | none => simp at h
+  | some w =>
+    dsimp only at h ⊢
+    split
+    · rfl
+    · rename_i h0
+      rw [if_neg h0] at h
+      have hobs : obsOf (withFinalizer br) ns w = obsOf br br.status w := rfl
+      rw [hobs]
+      split at h
+      · cases h
+      · rename_i c hc
+        rw [hc]
+        dsimp only
+        rw [if_pos (by simpa using h)]
+
+/-- **C07 (executor, verifying)** — when the workload has what the batch calls for, a reconcile in
+    `Verifying` reports `Ready` (with the ready time set) and touches nothing. -/
+theorem verifying_becomes_ready (br : BR) (wl : Option Workload) (o : StepOut)
+    (h : reconcile br wl = .val o) (hns : stopped br wl = false)
+    (hp : br.status.phase = .progressing) (hst : br.status.batchState = .verifying) (hr : batchReadyNow br wl = true) :
+    ∃ b, o.br = some b ∧ b.status.batchState = .ready ∧ b.status.hasReadyTime = true ∧
+      b.status.currentBatch = br.status.currentBatch ∧ o.wl = wl := by
+  obtain ⟨ns', wl', rq, er, hex, hb, hw⟩ := reconcile_exec br wl o h hns
+  rcases execute_cases _ _ _ _ _ _ _ hex with ⟨_, hpr⟩ | ⟨hnp, _⟩
+  · unfold execProgressing at hpr
+    dsimp only at hpr
+    have hnorm : normState br.status = br.status := by unfold normState; simp [hst]
+    rw [hnorm] at hpr
+    simp only [hst] at hpr
+    rw [ensureReady_of_ready br br.status wl hr] at hpr
+    simp only [Out.val.injEq, Prod.mk.injEq] at hpr
+    obtain ⟨h1, h2, _, _⟩ := hpr
+    refine ⟨_, hb, ?_, ?_, ?_, ?_⟩
+    · rw [← h1]
+    · rw [← h1]
+    · rw [← h1]
+    · rw [hw, ← h2]
+  · exact absurd hp hnp
+
+/-- **C07 (executor, fixed point)** — a batch that is `Ready`, whose pods still pass the readiness check and
+    whose partition does not ask for more, is a fixed point: the reconcile changes neither the status nor
+    the workload and asks for no requeue — the executor does not oscillate while it waits for the Rollout
+    controller to raise the partition. -/
+theorem ready_is_fixed_point (br : BR) (wl : Option Workload) (o : StepOut)
+    (h : reconcile br wl = .val o) (hns : stopped br wl = false)
+    (hp : br.status.phase = .progressing) (hst : br.status.batchState = .ready) (hr : batchReadyNow br wl = true)
+    (hpart : isPartitioned br = true) :
+    o.br = some (withFinalizer br) ∧ o.wl = wl := by
+  obtain ⟨ns', wl', rq, er, hex, hb, hw⟩ := reconcile_exec br wl o h hns
+  rcases execute_cases _ _ _ _ _ _ _ hex with ⟨_, hpr⟩ | ⟨hnp, _⟩
+  · unfold execProgressing at hpr
+    dsimp only at hpr
+    have hnorm : normState br.status = br.status := by unfold normState; simp [hst]
+    rw [hnorm] at hpr
+    simp only [hst] at hpr
+    rw [ensureReady_of_ready br br.status wl hr] at hpr
+    have hpart' : isPartitioned (withFinalizer br) = true := hpart
+    simp only [hpart', not_true_eq_false, if_false, Out.val.injEq, Prod.mk.injEq] at hpr
+    obtain ⟨h1, h2, _, _⟩ := hpr
+    refine ⟨?_, by rw [hw, ← h2]⟩
+    rw [hb, ← h1]
+    rfl
+  · exact absurd hp hnp
+
 /-! ### non-vacuity (tests on literals) -/
 def exampleBR : BR :=
   { batches := [.pct 20, .pct 50, .pct 100], partition := some 1, failureThreshold := none,
